@@ -353,7 +353,11 @@ def r08_5(ck):
     assigns = [s for s in A.walk_no_nested(f.node)
                if isinstance(s, ast.Assign) and A.unparse(
                    s.targets[0]) == 'self.value' and isinstance(
-                   s.value, ast.Call) and A.is_name(s.value.func, 'updater')]
+                   s.value, ast.Call) and isinstance(
+                   s.value.func, ast.Name) and any(
+                   isinstance(d.value, ast.Call) and A.call_name(
+                       d.value) == '_get_updater'
+                   for d in local_defs(f.node).get(s.value.func.id, []))]
     ck.require(len(assigns) == 1, 'R08.5', f, f.node.name,
                'the leaf value is assigned from updater(self.value, update)',
                'leaf update no longer assigns self.value = updater(...)')
@@ -418,8 +422,10 @@ def r08_5(ck):
                '(when units are declared)',
                'a leaf with units can be left holding a value in other '
                'units: no .to(self.units) after the update', a)
-    listconv = any('for v in self.value' in A.unparse(cfg.info[n]['stmt'])
-                   for n in conv)
+    listconv = any(
+        isinstance(x, (ast.ListComp, ast.For)) and 'self.value' in A.unparse(
+            x.generators[0].iter if isinstance(x, ast.ListComp) else x.iter)
+        for n in conv for x in ast.walk(cfg.info[n]['stmt']))
     ck.require(listconv and len(conv) >= 2, 'R08.5', f, a,
                'lists of quantities are converted element-wise and scalars '
                'directly', 'the units conversion lost its list or scalar '
@@ -502,6 +508,22 @@ def r08_7(ck):
             'per-update _updater override never replaces the declared '
             'updater; colliding updates of several ports stay separate '
             'updates (shared with C06 R06.2)')
+    r08_7_lookup(ck)
+    c06.r06_2(ck)
+    for o in ck.obligations:
+        if o['rule'] == 'R06.2':
+            o['rule'] = 'R08.7'
+    for v in ck.violations:
+        if v.rule == 'R06.2':
+            v.rule = 'R08.7'
+    ck.rules.pop('R06.2', None)
+
+
+def r08_7_lookup(ck, rule='R08.7'):
+    """_get_updater / _get_divider are pure lookups."""
+    if rule not in ck.rules:
+        ck.rule(rule, 'selecting an updater does not change the store: '
+                '_get_updater (and _get_divider) assign no attribute')
     for q in ('Store._get_updater', 'Store._get_divider'):
         f = ck.fn(q, 'core.store')
         writes = [n for n in ast.walk(f.node)
@@ -511,21 +533,13 @@ def r08_7(ck):
                       for t in (A.assigned_targets(n) if not isinstance(
                           n, ast.NamedExpr) else [n.target]))]
         writes += [c for c in A.calls_in(f.node, ('setattr',))]
-        ck.require(not writes, 'R08.7', f,
+        ck.require(not writes, rule, f,
                    writes[0] if writes else f.node.name,
                    q + ' is a pure lookup',
                    '%s stores into the node (%s): an updater named in one '
                    'update would replace the declared updater for all later '
                    'updates' % (q, A.short(writes[0], 60) if writes else ''),
                    writes[0] if writes else None)
-    c06.r06_2(ck)
-    for o in ck.obligations:
-        if o['rule'] == 'R06.2':
-            o['rule'] = 'R08.7'
-    for v in ck.violations:
-        if v.rule == 'R06.2':
-            v.rule = 'R08.7'
-    ck.rules.pop('R06.2', None)
 
 
 # in-place by design, one reason each
